@@ -42,6 +42,8 @@ extern long vh_overlap_copies;                     /* memcpy/strcpy/strncpy call
 
 /* ---- lock tracer ----------------------------------------------------------------- */
 extern volatile long vh_locks, vh_unlocks;  /* successful trylock/lock and unlock calls */
+extern volatile long vh_unlock_failures;    /* unlock calls the mutex refused (not held by the caller): an unlock too many */
+#define VH_LOCK_BALANCE() (vh_locks - vh_unlocks - vh_unlock_failures)   /* depth as the code believes it to be */
 extern volatile int vh_force_busy;          /* >0: that many trylock calls fail with EBUSY */
 extern volatile long vh_usleeps;
 /* scheduling hooks for the deterministic scheduler (harness/conc.c); NULL = off */
